@@ -48,7 +48,13 @@ type notifySt struct {
 	vc           vclock
 }
 
+type poolSt struct {
+	items []Value
+	vc    vclock
+}
+
 type syncState struct {
+	pools  map[*Cell]*poolSt
 	mutex  map[*Cell]*mutexSt
 	rw     map[*Cell]*rwSt
 	wg     map[*Cell]*wgSt
@@ -61,7 +67,7 @@ type syncState struct {
 }
 
 func newSyncState() *syncState {
-	return &syncState{mutex: map[*Cell]*mutexSt{}, rw: map[*Cell]*rwSt{}, wg: map[*Cell]*wgSt{}, notify: map[*Cell]*notifySt{}, atomVC: map[*Cell]vclock{}, held: map[int][]*Cell{}, edges: map[*Cell]map[*Cell]string{}, names: map[*Cell]string{}}
+	return &syncState{pools: map[*Cell]*poolSt{}, mutex: map[*Cell]*mutexSt{}, rw: map[*Cell]*rwSt{}, wg: map[*Cell]*wgSt{}, notify: map[*Cell]*notifySt{}, atomVC: map[*Cell]vclock{}, held: map[int][]*Cell{}, edges: map[*Cell]map[*Cell]string{}, names: map[*Cell]string{}}
 }
 
 func (s *syncState) onThreadExit(m *Machine, th *Thread) {
@@ -191,6 +197,14 @@ func (m *Machine) spawn(parent *Thread, tgt callTarget, args []Value) {
 		fn, binds = fi.redirect, nil
 	}
 	m.pushFrame(th, fn, binds, args, -1)
+	if m.spawnFork && m.maxPreempt > 0 {
+		// the new goroutine may run first: a switch to it right at its creation is not a
+		// preemption (nd.SpawnRunsFirst; otherwise only "creator stops half-way, the new one
+		// runs to completion" fits into a bound of one preemption, never the reverse)
+		if m.decideN(2, "spawn") == 1 {
+			m.cur = th
+		}
+	}
 }
 
 // runLoop drives all threads until the main thread finishes.
